@@ -81,7 +81,8 @@ func runC08(tier string, _ []string) int {
 			for k := 0; k < r.Intn(3); k++ {
 				vnodes = append(vnodes, mk(g.Root, "vNode", base()))
 			}
-			kids = append(kids, mk(vnodes[0], "vChild", data.Points{{Type: "description", Time: d.now(), Text: "kid0", Origin: "setup"}}), mk(vnodes[0], "vChild", data.Points{{Type: "description", Time: d.now(), Text: "kid1", Origin: "setup"}}))
+			// children carry timestamps of a lagging clock (one hour back) throughout, see the write phase
+			kids = append(kids, mk(vnodes[0], "vChild", data.Points{{Type: "description", Time: d.now().Add(-time.Hour), Text: "kid0", Origin: "setup"}}), mk(vnodes[0], "vChild", data.Points{{Type: "description", Time: d.now().Add(-time.Hour), Text: "kid1", Origin: "setup"}}))
 			kids = append(kids, mk(vnodes[1], "vChild", nil))
 			// mirror vnodes[1] under the root as well: two placements, two clients
 			if e, err := d.sendEdge(vnodes[1], g.Root, data.Points{{Type: data.PointTypeTombstone, Time: d.now()}, {Type: data.PointTypeNodeType, Text: "vNode"}}); err != nil || e != "" {
@@ -104,6 +105,7 @@ func runC08(tier string, _ []string) int {
 		startSeq := v.mon.mark("writes-begin")
 		// ---- write phase
 		var sent []sentBatch
+		lastSent := map[string]data.Point{}
 		nB := 30 + r.Intn(c.N(60, 170))
 		allTargets := append(append(append(append([]string{}, vnodes...), kids...), others...), grp)
 		for k := 0; k < nB; k++ {
@@ -148,7 +150,24 @@ func runC08(tier string, _ []string) int {
 					}
 					seen[p.Type+"/"+p.Key] = true
 					p.Time, p.Origin = d.now(), origin
+					lk := t + "|" + p.Type + "/" + p.Key
+					if prev, ok := lastSent[lk]; ok && r.Chance(0.2) {
+						// same timestamp as the last write to this identity (timestamps are only non-decreasing), other content
+						p.Time = prev.Time
+						if g.Types[t] == "vChild" {
+							p.Time = p.Time.Add(time.Hour) // undone by the lagging-clock shift below
+						}
+						if p.Type == "opt" {
+							p.Text, p.Tombstone = prev.Text, 1-prev.Tombstone%2
+						}
+					}
+					if g.Types[t] == "vChild" {
+						// a device below with a lagging clock: older than anything on the client's own node, still
+						// increasing per identity
+						p.Time = p.Time.Add(-time.Hour)
+					}
 					sb.Points = append(sb.Points, p)
+					lastSent[lk] = p
 				}
 			}
 			var e string
